@@ -128,19 +128,20 @@ def build_cli():
 def _mc_frontends(v):
     quick = v.tier == "quick"
     ops = 4 if quick else 7
+    ids = '{"a", " a"}' if quick else '{"a", " a", "b"}'
     cfg = lib.write_cfg("MC_Frontends_ideal.cfg", MCF_CFG.format(
-        ids='{"a", "b"}', ops=ops, variant="ideal", print="FALSE", rej="TRUE", tail=MCF_INVS))
+        ids=ids, ops=ops, variant="ideal", print="FALSE", rej="TRUE", tail=MCF_INVS))
     res = lib.tlc_mc("MC_Frontends.tla", cfg, timeout=3000, xmx="8g")
     lib.require_mc_ok(res, "MC_Frontends", need_actions=["DoAdd1", "DoAdd2", "DoRejected", "DoDelete", "DoCommit"])
     refuted = []
-    for variant in ("S23a", "ffi_commit_own_doc"):
+    for variant in ("S23a", "S25a", "ffi_commit_own_doc"):
         c = lib.write_cfg(f"MC_Frontends_{variant}.cfg", MCF_CFG.format(
-            ids='{"a", "b"}', ops=4, variant=variant, print="FALSE", rej="TRUE", tail=MCF_INVS))
+            ids=ids, ops=4, variant=variant, print="FALSE", rej="TRUE", tail=MCF_INVS))
         r = lib.tlc_mc("MC_Frontends.tla", c, timeout=900, coverage=False)
         lib.expect_mc_violation(r, f"MC_Frontends Variant={variant}", {"EventualAgree", "CommittedAgree"})
         refuted.append(variant)
     res["refuted"] = refuted
-    res["bounds"] = f"2 ids, <= {ops} operations (add/update of 1-2 documents, rejected document, delete, commit, compact), executions lib/cli/http/ffi"
+    res["bounds"] = f"ids {ids} (one with a leading blank), <= {ops} operations (add/update of 1-2 documents, rejected document, delete, commit, compact), executions lib/cli/http/ffi"
     return res
 
 
@@ -150,7 +151,8 @@ def _sim_histories(v, num, depth, path):
     msgs = []
     for rej in ("TRUE", "FALSE"):
         cfg = lib.write_cfg(f"MC_Frontends_sim_{rej}.cfg", MCF_CFG.format(
-            ids='{"a", "b", "c"}', ops=depth, variant="ideal", print="TRUE", rej=rej,
+            ids='{"a", "b", "c"}' if rej == "TRUE" else '{"a", " a", "b"}', ops=depth,
+            variant="ideal", print="TRUE", rej=rej,
             tail="INVARIANT PrintCase"))
         res = lib.tlc_mc("MC_Frontends.tla", cfg, workers=1, simulate=max(1, num // 2), depth=depth + 1,
                          seed=v.seed, timeout=900)
